@@ -246,6 +246,20 @@ func (s *Session) Exec(line string) (obs string, viol string) {
 		return "ok", ""
 	case "vcheck":
 		return "ok", s.vcheck()
+	case "coldcache":
+		// from now on trees are opened through a NEW node cache of the same kind (another process, a
+		// restarted one): what they load first comes decoded from the store, not from a writer's commit
+		switch s.Cfg.Cache {
+		case "big":
+			s.Cache = mast.NewNodeCache(100000)
+		case "tiny":
+			s.Cache = mast.NewNodeCache(2)
+		case "one":
+			s.Cache = mast.NewNodeCache(1)
+		case "recbig":
+			s.Cache = &recCache{inner: mast.NewNodeCache(100000), seen: map[string]interface{}{}}
+		}
+		return "ok", ""
 	case "difflinks":
 		return s.execDiffLinks(int(num(1)), int(num(2)))
 	case "difflinksstop", "difflinkserr":
@@ -716,7 +730,7 @@ func (s *Session) ModelLine(line string) string {
 	if t[0] == "isoload" {
 		return "load " + strings.Join(t[1:], " ")
 	}
-	if t[0] == "vcheck" || t[0] == "twostore" {
+	if t[0] == "vcheck" || t[0] == "twostore" || t[0] == "coldcache" {
 		return "echo ok"
 	}
 	if t[0] == "flush" {
